@@ -52,6 +52,7 @@ impl_hook!(ACCEPT, accept(fd: c_int, address: *mut sockaddr, address_len: *mut s
 ))]
 impl_hook!(ACCEPT4, accept4(fd: c_int, addr: *mut sockaddr, len: *mut socklen_t, flg: c_int) -> c_int);
 impl_hook!(SHUTDOWN, shutdown(fd: c_int, how: c_int) -> c_int);
+impl_hook!(CLOSE, close(fd: c_int) -> c_int);
 impl_hook!(RECV, recv(fd: c_int, buf: *mut c_void, len: size_t, flags: c_int) -> ssize_t);
 impl_hook!(RECVFROM, recvfrom(fd: c_int, buf: *mut c_void, len: size_t, flags: c_int, addr: *mut sockaddr, addrlen: *mut socklen_t) -> ssize_t);
 #[cfg(not(all(target_os = "linux", feature = "io_uring")))]
